@@ -45,6 +45,10 @@ type Result struct {
 	Findings   []Finding // oracle verdicts
 	Nontrivial bool      // the case reached a state-changing branch named in the engine's rule
 	Tags       []string  // branches / kinds hit, for the input-distribution statistics
+	// Derived are further driver lines ("engine payload") built from what the implementation actually did
+	// (e.g. the bytes it wrote), to be judged by a reference that lives in Lean: the driver must answer "ok";
+	// any other answer is an oracle finding whose class is "ref:" + the first word of the answer.
+	Derived []string
 }
 
 // Gen collects the cases an engine generates.
